@@ -49,6 +49,7 @@ template <class L> void runD(size_t n0, const std::vector<std::string> &ops) {
     for (auto &op : ops) {
         std::istringstream is(op); std::string k; long i = 0; is >> k;
         if (k == "Q") { is >> i; Segs o = observeD(g); o.insert(o.begin(), Obs{0}); o.push_back(queryD(g, (unsigned)i)); emit("I", o); continue; }
+        if (!k.empty() && k[0] == '~') { Z r = applyOp(g, op.substr(op.find('~') + 1)); emit("I", Segs{Obs{r}}); continue; }   // silent step: result only
         Z r = applyOp(g, op);
         Segs o = observeD(g); o.insert(o.begin(), Obs{r}); o.push_back(Obs{}); emit("I", o);
     }
@@ -94,6 +95,7 @@ template <class L> void runU(size_t n0, const std::vector<std::string> &ops) {
     for (auto &op : ops) {
         std::istringstream is(op); std::string k; long i = 0; is >> k;
         if (k == "Q") { is >> i; Segs o = observeU(g); o.insert(o.begin(), Obs{0}); o.push_back(queryU(g, (unsigned)i)); emit("I", o); continue; }
+        if (!k.empty() && k[0] == '~') { Z r = applyOp(g, op.substr(op.find('~') + 1)); emit("I", Segs{Obs{r}}); continue; }   // silent step: result only
         Z r = applyOp(g, op);
         Segs o = observeU(g); o.insert(o.begin(), Obs{r}); o.push_back(Obs{}); emit("I", o);
     }
